@@ -735,6 +735,9 @@ pub fn gen_jobs(vs: u64, tier: &str, profile: &str) -> Vec<Job> {
                 Some(((5, 9), (6, 48))),
                 Some(((44, 45), TERMINAL)),
                 Some(((47, 48), TERMINAL)),
+                // the empty scope that starts at the terminal itself (what a splitter
+                // hands its surplus workers)
+                Some((TERMINAL, TERMINAL)),
                 Some((pos_from_index(rng.usize_below(NPOS)), TERMINAL)),
                 None,
             ];
